@@ -50,4 +50,30 @@ theorem back_is_enabled (c : Cfg) (evs : List CEv) (d : TRsp) (rest : List TRsp)
 example : (crun demoCfg (answeredEvs.take 25)).sys.rob.topOut.map (·.rspTo) = [1] ∧
     (crun demoCfg (answeredEvs.take 26)).cu.s.inp = [(0, 1)] := by decide
 
+/-- **Fifth stage: the compute unit applies the response.** In every composed run (no protocol, no
+    hypothesis on names): if the response at the head of the compute unit's scalar port names the
+    CURRENT request `(e.id, e.gen)` of an in-flight record `e` and the unit reads its ports (it runs,
+    or it is re-sending), its next tick answers the record: `e.id` is in `applied` (and, by
+    `cu_never_applies_twice`, never a second time). A response under any other name — a stale
+    generation, or the never-sent ID of `unsent_name_witness` — is dropped and the record stays in the
+    in-flight / shadow list until its current request is answered. -/
+theorem answer_is_applied (c : Cfg) (evs : List CEv) (e : C14.Flush.Entry) (rest : List C14.Flush.Req)
+    (hinp : (crun c evs).cu.s.inp = (e.id, e.gen) :: rest) (he : e ∈ (crun c evs).cu.s.inf)
+    (hf : (crun c evs).cu.fault = false)
+    (hrun : (crun c evs).cu.isPaused = false ∨ (crun c evs).cu.isSending = true) :
+    e.id ∈ (crun c (evs ++ [.cu .tick])).cu.s.applied := by
+  have hrun' : crun c (evs ++ [.cu .tick]) = cstep c (crun c evs) (.cu .tick) := by
+    simp [crun, List.foldl_append]
+  have hcu : (cstep c (crun c evs) (.cu .tick)).cu = C14.Flush.tick c.cu (crun c evs).cu := by
+    simp [cstep, isLink, C14.Flush.step, hf]
+  rw [hrun', hcu]
+  exact tick_applies_current c.cu _ e rest hinp he hrun
+
+/-- the end of `answeredEvs`: the response (0, 1) is in the port, record 0 is in flight under
+    generation 1, the unit runs; its tick applies it -/
+example : (crun demoCfg (answeredEvs.take 26)).cu.s.inp = [(0, 1)] ∧
+    (crun demoCfg (answeredEvs.take 26)).cu.s.inf.map (fun e => (e.id, e.gen)) = [(0, 1)] ∧
+    (crun demoCfg (answeredEvs.take 26)).cu.isPaused = false ∧
+    (crun demoCfg answeredEvs).cu.s.applied = [0] := by decide
+
 end C15.Cu
